@@ -122,6 +122,9 @@ func runTask(t *task) *result {
 	if t.DeadlineS > 0 {
 		opt.Deadline = start.Add(time.Duration(t.DeadlineS) * time.Second)
 	}
+	if sc.Probe > 0 {
+		opt.Strategy, opt.PreemptBound, opt.MaxExecs = vs.Plain, 0, int64(sc.Probe)
+	}
 	if vs.RaceBuild {
 		opt.AfterExec = func(ex *vs.Exec) bool {
 			if n := raceLogSize(); n > raceSeen {
@@ -471,6 +474,7 @@ func main() {
 	var tot vs.Stats
 	exhaustive := true
 	var capped []string
+	var probes []string
 	outcomes := 0
 	vacuous := 0
 	var samples []any
@@ -514,7 +518,10 @@ func main() {
 		if r.Outcomes <= 1 && r.Stats.Complete > 1 {
 			vacuous++
 		}
-		if !r.Stats.Exhaustive && len(r.Violations) == 0 {
+		if sc.Probe > 0 {
+			probes = append(probes, fmt.Sprintf("%s: %d schedules (%d complete) of the preemption-bound-0 search, %s", sc.String(), r.Stats.Execs, r.Stats.Complete,
+				map[bool]string{true: "all of them", false: "capped"}[r.Stats.Exhaustive]))
+		} else if !r.Stats.Exhaustive && len(r.Violations) == 0 {
 			exhaustive = false
 			capped = append(capped, fmt.Sprintf("%s (%s after %d executions)", sc.String(), r.Stats.CappedBy, r.Stats.Execs))
 		}
@@ -594,6 +601,8 @@ func main() {
 				"strategy":                      *strategy,
 				"preemption_bound":              *preempt,
 				"capped_scenarios":              capped,
+				"boundary_probes":               probes,
+				"boundary_probes_note":          "scenarios marked probe/K use limits beyond the exhaustively explored ones; they are searched depth-first with zero preemptions and stop after K schedules. They are listed here and are NOT part of the space the exhaustive flag refers to",
 				"known_findings_hit":            rep.KnownHits,
 				"thread_census":                 censusOut,
 				"race_detector":                 vs.RaceBuild,
